@@ -92,6 +92,13 @@ template<class T> static void k_ptr(const In4<T>& in,vf::Ctx& c){
 	for(int i=0;i<2;i++) if(!same(v2[i],in.v[i])) c.fail("make_vec2:component-wrong",v2[i],in.v[i]); for(int i=0;i<3;i++) if(!same(v3[i],in.v[i])) c.fail("make_vec3:component-wrong",v3[i],in.v[i]); for(int i=0;i<4;i++) if(!same(v4[i],in.v[i])) c.fail("make_vec4:component-wrong",v4[i],in.v[i]); for(int i=0;i<4;i++) if(!same(q[i],in.v[i])) c.fail("make_quat:component-wrong",q[i],in.v[i]);
 	glm::mat<3,3,T,glm::defaultp> m(in.v[0],in.v[1],in.v[2],in.v[3],in.v[0],in.v[1],in.v[2],in.v[3],in.v[0]); auto m2=glm::make_mat3(glm::value_ptr(m)); if(!(m2==m)) c.fail("make_mat3(value_ptr(m)):round-trip-changed",m2[1][1],m[1][1]);
 	glm::mat<4,3,T,glm::defaultp> n(m); auto n2=glm::make_mat4x3(glm::value_ptr(n)); if(!(n2==n)) c.fail("make_mat4x3(value_ptr(m)):round-trip-changed",n2[1][1],n[1][1]);
+	// sources that are only aligned like a T (element 1, 2 or 3 of a heap array): the builders take a T const*, nothing promises more
+	{ std::unique_ptr<T[]> buf(new T[24]); for(int off=1;off<=3;off++){ T* p=buf.get()+off; for(int i=0;i<16;i++) p[i]=in.v[(i*7+off)&3]; // exactly 16 elements are readable behind p only when off<=8; the array has 24
+			auto u4=glm::make_vec4(p); auto u3=glm::make_vec3(p); auto u2=glm::make_vec2(p); auto uq=glm::make_quat(p); auto M4=glm::make_mat4(p); auto M3=glm::make_mat3(p); auto M43=glm::make_mat4x3(p); auto M2=glm::make_mat2(p); auto M34=glm::make_mat3x4(p);
+			for(int i=0;i<4;i++) if(!same(u4[i],p[i])||!same(uq[i],p[i])) c.fail("make_vec4/make_quat(T-aligned pointer):component-wrong",u4[i],p[i]); for(int i=0;i<3;i++) if(!same(u3[i],p[i])) c.fail("make_vec3(T-aligned pointer):component-wrong",u3[i],p[i]); for(int i=0;i<2;i++) if(!same(u2[i],p[i])) c.fail("make_vec2(T-aligned pointer):component-wrong",u2[i],p[i]);
+			for(int i=0;i<4;i++) for(int j=0;j<4;j++) if(!same(M4[i][j],p[i*4+j])) c.fail("make_mat4(T-aligned pointer):element-wrong",M4[i][j],p[i*4+j]); if(sizeof(M3)==9*sizeof(T)) /* padded (aligned) 3-row columns: the builder reads the padded layout, judged by C16 */ for(int i=0;i<3;i++) for(int j=0;j<3;j++) if(!same(M3[i][j],p[i*3+j])) c.fail("make_mat3(T-aligned pointer):element-wrong",M3[i][j],p[i*3+j]);
+			if(sizeof(M43)==12*sizeof(T)) for(int i=0;i<4;i++) for(int j=0;j<3;j++) if(!same(M43[i][j],p[i*3+j])) c.fail("make_mat4x3(T-aligned pointer):element-wrong",M43[i][j],p[i*3+j]); for(int i=0;i<2;i++) for(int j=0;j<2;j++) if(!same(M2[i][j],p[i*2+j])) c.fail("make_mat2(T-aligned pointer):element-wrong",M2[i][j],p[i*2+j]);
+			for(int i=0;i<3;i++) for(int j=0;j<4;j++) if(!same(M34[i][j],p[i*4+j])) c.fail("make_mat3x4(T-aligned pointer):element-wrong",M34[i][j],p[i*4+j]); } }
 	std::unique_ptr<glm::vec<3,T,glm::defaultp>> hv(new glm::vec<3,T,glm::defaultp>(in.v[0],in.v[1],in.v[2])); glm::vec<4,T,glm::defaultp> w(*hv,in.v[3]); glm::vec<2,T,glm::defaultp> h2(*hv); if(!same(w[3],in.v[3])||!same(h2[1],in.v[1])) c.fail("vec4(vec3,s)/vec2(vec3):component-wrong",w[3],in.v[3]);
 }
 // qualifier conversions into destinations that are heap objects of exactly sizeof(destination) bytes: packed <-> aligned, vectors and matrices
